@@ -332,12 +332,12 @@ Section MeshUniform.
     unfold dist3, len3, NormR.sub3, lpoint. cbn [wx wy wz].
     destruct C as [(-> & -> & ->)|[(-> & -> & ->)|[(-> & -> & ->)|[(-> & -> & ->)|[(-> & -> & ->)|(-> & -> & ->)]]]]];
       rewrite ?plus_IZR, ?minus_IZR.
-    - left. rewrite <- (S1 _ Ix) at 2. f_equal. ring.
-    - left. rewrite <- (S1 _ Ix) at 2. f_equal. ring.
-    - right; left. rewrite <- (S2 _ Iy) at 2. f_equal. ring.
-    - right; left. rewrite <- (S2 _ Iy) at 2. f_equal. ring.
-    - right; right. rewrite <- (S3 _ Iz) at 2. f_equal. ring.
-    - right; right. rewrite <- (S3 _ Iz) at 2. f_equal. ring.
+    - left. etransitivity; [|apply (S1 _ Ix)]. f_equal. ring.
+    - left. etransitivity; [|apply (S1 _ Ix)]. f_equal. ring.
+    - right; left. etransitivity; [|apply (S2 _ Iy)]. f_equal. ring.
+    - right; left. etransitivity; [|apply (S2 _ Iy)]. f_equal. ring.
+    - right; right. etransitivity; [|apply (S3 _ Iz)]. f_equal. ring.
+    - right; right. etransitivity; [|apply (S3 _ Iz)]. f_equal. ring.
   Qed.
   Lemma lattice_step_dist_le q q' : lattice_step q q' -> dist3 (lpoint L q) (lpoint L q') <= @v3maxcomp ROps (linc L).
   Proof.
